@@ -108,6 +108,12 @@ def cmd_run(prop, tier):
     mod = importlib.import_module('harness.' + prop.lower())
     from sx import known, adapt_list
     shards = mod.shards(tier)
+    # scheduling hints (measured wall time of each shard in an earlier run; only affects the order)
+    cpath = os.path.join(HERE, 'costs', '%s_%s.json' % (prop, tier))
+    if os.path.exists(cpath):
+        costs = json.load(open(cpath))
+        for sp in shards:
+            sp.setdefault('cost', costs.get(sp['name'], 0))
     if tier == 'thorough':
         # size the thorough tier by total wall time: cap the per-shard budget so that the worst case (every shard
         # running into its budget) stays near the target; shards that exhaust their tree earlier are unaffected
